@@ -44,8 +44,18 @@ package api
 //@   modifies nothing
 
 // ---- query-string form of the pin options (C08, used by the REST API: C11) ----
+// optionRefused: option values the parsers refused so far (call-history ghost kept by the callers)
+//@ ghost var optionRefused int
+//@ func parseBoolParam
+//@   property C11
+//@   counts optionRefused when err != nil
+//@   ensures qget(q, name) == "" ==> err == nil && *dest == old(*dest)
+//@   ensures forall d *bool :: d != dest ==> *d == old(*d)
+//@   modifies heap(bool)
+
 //@ func parseIntParam
 //@   property C08 C11
+//@   counts optionRefused when err != nil
 //@   ensures qget(q, name) == "" ==> err == nil && *dest == old(*dest)
 //@   ensures forall d *int :: d != dest ==> *d == old(*d)
 //@   modifies heap(int)
@@ -58,6 +68,7 @@ package api
 //@   property C08 C11
 //@   opts split_returns
 //@   requires po != nil
+//@   ensures [malformed-option-is-refused] optionRefused != old(optionRefused) ==> err != nil
 //@   ensures [name] po.Name == qget(q, "name")
 //@   ensures [mode] po.Mode == ite(qget(q, "mode") == "direct", PinModeDirect, PinModeRecursive)
 //@   ensures [metadata-from-query] err == nil ==> forall mk string :: haskey(po.Metadata, mk) ==> exists k string :: haskey(final(q), k) && libfn("strings.HasPrefix", 0, k, pinOptionsMetaPrefix) && libfn("strings.TrimPrefix", 0, k, pinOptionsMetaPrefix) == mk && mk != "" && po.Metadata[mk] == qget(final(q), k)
@@ -68,7 +79,7 @@ package api
 //@     invariant forall mk string :: haskey(po.Metadata, mk) ==> exists k string :: haskey(q, k) && libfn("strings.HasPrefix", 0, k, pinOptionsMetaPrefix) && libfn("strings.TrimPrefix", 0, k, pinOptionsMetaPrefix) == mk && mk != "" && po.Metadata[mk] == qget(q, k)
 //@     invariant forall k string :: in(k, seen1) && libfn("strings.HasPrefix", 0, k, pinOptionsMetaPrefix) && libfn("strings.TrimPrefix", 0, k, pinOptionsMetaPrefix) != "" ==> haskey(po.Metadata, libfn("strings.TrimPrefix", 0, k, pinOptionsMetaPrefix))
 //@     invariant forall o *PinOptions :: o != po ==> *o == old(*o)
-//@   modifies heap(PinOptions)
+//@   modifies heap(PinOptions), optionRefused
 
 //@ func DefaultAddParams
 //@   property C11 C12
@@ -79,7 +90,10 @@ package api
 //@   property C11 C12
 //@   ensures err != nil ==> res == nil
 //@   ensures err == nil ==> res != nil && fresh(res)
-//@   modifies nothing
+// "refused as malformed (undecodable ... option)": an option value one of the parsers refused is never ignored
+//@   ensures [malformed-option-is-refused] optionRefused != old(optionRefused) ==> err != nil
+//@   ensures [bad-layout-or-format-is-refused] (qget(query, "layout") != "trickle" && qget(query, "layout") != "balanced" && qget(query, "layout") != "") || (qget(query, "format") != "car" && qget(query, "format") != "unixfs" && qget(query, "format") != "") ==> err != nil
+//@   modifies optionRefused
 
 // protobuf decoding of a stored pin (glue over the generated pb code; not verified in this build)
 
